@@ -1,7 +1,7 @@
 #!/bin/bash
 # verify every delivered round-2 seed (hard: /tmp/r2h_C*/seed_out, benign: /tmp/r2b_C*/seed_out) not verified yet
 cd /verif
-for d in /tmp/r2h_C*/seed_out /tmp/r2b_C*/seed_out; do
+for d in "$@"; do
   [ -d $d ] || continue
   base=$(basename $(dirname $d))
   prop=${base#*_}
@@ -13,7 +13,7 @@ for d in /tmp/r2h_C*/seed_out /tmp/r2b_C*/seed_out; do
     [ -f $out ] && continue
     echo "verifying $kind $prop $x"
     if [ "$kind" = "r2b" ]; then
-      ( /venv/bin/python tools/verify_seed.py $prop r2${x} $d/patch_$X.diff $d/demo_$X.py $d/notes_$X.md --benign > $out 2>&1 ) &
+      ( /venv/bin/python tools/verify_seed.py $prop b2${x} $d/patch_$X.diff $d/demo_$X.py $d/notes_$X.md --benign > $out 2>&1 ) &
     else
       ( /venv/bin/python tools/verify_seed.py $prop r2${x} $d/patch_$X.diff $d/demo_$X.py $d/notes_$X.md > $out 2>&1 ) &
     fi
